@@ -242,6 +242,13 @@ func runC19(c *ctx) {
 			})
 			sc.h.steps[len(sc.h.steps)-1].(obj)["now"] = 100
 			c.count("dropped-by-update", nd)
+			// a lookup of each dropped name that finds nothing and gives up at its deadline (whatever such a lookup leaves
+			// behind must not keep a later lookup from subscribing again)
+			for _, e := range sc.entries {
+				if e.rt == rt && e.class == "dropped" {
+					sc.getStep(e.rt, e.name, 100)
+				}
+			}
 		}
 		for _, e := range sc.entries {
 			if e.class == "old" || e.class == "dropped" {
@@ -369,6 +376,25 @@ func runC19(c *ctx) {
 			pushOne(false)
 			sc.getStep(e.rt, e.name, now)
 			c.count("relookups", 1)
+		}
+		// a cluster that the control plane had removed (and the sweep then withdrew) is listed again and looked up again
+		for _, e := range sc.entries {
+			if sc.stalled || e.class != "dropped" || e.rt != "cds" {
+				continue
+			}
+			now := 100 + 30*ticks + 2
+			ee := e
+			sc.getStep(e.rt, e.name, now)
+			version++
+			st := fmt.Sprintf("%s#%d", ee.name, version)
+			v, nonce := fmt.Sprintf("v%d", version), fmt.Sprintf("n%d", version)
+			sc.h.step(obj{"o": "push", "rt": ee.rt, "v": v, "nonce": nonce, "slots": slotsJSON([][3]string{{"good", ee.name, st}})}, func() {
+				sc.h.w.feed(mkResp(urlOf(ee.rt), v, nonce, []*anypb.Any{anyStamped(ee.rt, ee.name, st)}))
+			})
+			sc.h.steps[len(sc.h.steps)-1].(obj)["now"] = now
+			sc.getStep(e.rt, e.name, now)
+			c.count("relookups.dropped", 1)
+			break
 		}
 		ents := make([]interface{}, 0, len(sc.entries))
 		for _, e := range sc.entries {
